@@ -428,6 +428,9 @@ def connected_components(edges, min_len=1, nodes=None, engine=None):
     # if no nodes were specified just use unique
     if nodes is None:
         nodes = np.unique(edges)
+    else:
+        # like `edges` the nodes may be passed as a plain list
+        nodes = np.asanyarray(nodes, dtype=np.int64)
 
     # exit early if we have no nodes
     if len(nodes) == 0:
